@@ -642,6 +642,9 @@ func runCallbacks(t *rapid.T) {
 		}
 	}
 	explicitDisable := rapid.Bool().Draw(t, "explicitdisable")
+	// an earlier EnableMouse with other modes, not followed by DisableMouse:
+	// the later call replaces the modes, it does not add to them
+	preFlags := tcell.MouseFlags(rapid.SampledFrom([]int{0, 0, 1, 3, 4, 5, 7}).Draw(t, "premouseflags"))
 	cycle := rapid.IntRange(0, 2).Draw(t, "suspendresume") // Suspend/Resume cycles after the modes were set
 	midSuspend := rapid.Bool().Draw(t, "midsuspend")       // callbacks also arrive while suspended: nothing may come of them
 	ch := hx.DrawChooser(t, 60)
@@ -651,12 +654,21 @@ func runCallbacks(t *rapid.T) {
 	}
 	var want []string
 	ready := false
-	w.s.Note(hx.Fingerprint(cbNames(cbs), flags, mouseOn, pasteOn, focusOn, cycle, midSuspend))
+	w.s.Note(hx.Fingerprint(cbNames(cbs), flags, mouseOn, pasteOn, focusOn, cycle, midSuspend, preFlags))
 	w.s.Spawn("app", func() {
 		if err := w.scr.Init(); err != nil {
 			w.failf("C19/event", "Init: %v", err)
 			ready = true
 			return
+		}
+		if mouseOn && preFlags != 0 {
+			var fl []tcell.MouseFlags
+			for _, f := range []tcell.MouseFlags{tcell.MouseButtonEvents, tcell.MouseDragEvents, tcell.MouseMotionEvents} {
+				if preFlags&f != 0 {
+					fl = append(fl, f)
+				}
+			}
+			w.scr.EnableMouse(fl...)
 		}
 		if mouseOn {
 			var fl []tcell.MouseFlags
